@@ -278,7 +278,7 @@ def wz_outcome(adapter, path, method):
         return ("404",), None
 
 
-def build_adapter(rules, order, strict, merge):
+def build_adapter(rules, order, strict, merge, late=0):
     from werkzeug.routing import Map, Rule
 
     rl = []
@@ -290,6 +290,17 @@ def build_adapter(rules, order, strict, merge):
         if r.get("merge") is not None:
             kw["merge_slashes"] = r["merge"]
         rl.append(Rule(R.rule_str(r), endpoint=r["ep"], methods=r["methods"], **kw))
+    if late and len(rl) >= 2:
+        # history: the map is bound and used (which sorts its rules and compiles the matcher) before its last rules arrive
+        m = Map(rl[:-late], strict_slashes=strict, merge_slashes=merge)
+        ad = m.bind("h.com")
+        try:
+            ad.match("/__warm-up__", method="GET")
+        except Exception:  # noqa: BLE001
+            pass
+        for r in rl[-late:]:
+            m.add(r)
+        return ad
     m = Map(rl, strict_slashes=strict, merge_slashes=merge)
     return m.bind("h.com")
 
@@ -327,7 +338,10 @@ def check_map(rec, spy, rng, cfg, rules, strict, merge):
     first = True
     for order in orders:
         try:
-            ad = build_adapter(rules, order, strict, merge)
+            late = rng.randint(1, n - 1) if n >= 2 and rng.random() < 0.25 else 0
+            ad = build_adapter(rules, order, strict, merge, late)
+            if late:
+                rec.observe("maps_extended_after_first_use")
         except Exception as e:
             rec.observe(f"map_build_error:{type(e).__name__}")
             if first:
